@@ -4,11 +4,13 @@
     [p] is the URI path of the request ([request.uri().path()]), any list of numbers.
     [percent_decode p] is its percent-decoding as BYTES (percent_encoding's rule).
     [sanitize_path] is the path part of [sanitize_request], [request_fs_path] the file path
-    [get_response] builds, [serve] the pipeline from [handle_cache] down to [read_file];
-    [run_history] (Model/PathSanPipe.v) runs [serve] over a history of requests with the response
-    cache threaded through — the component that is compared with the real [kvarn::handle_cache] on a
-    fixture tree on every run. *)
-From KV Require Import Bytes PathSan PathSanProofs PathSanPipe PathSanPipeProofs.
+    [get_response] builds, [serve_st] (Model/PathSanServe.v) the pipeline from [handle_cache] down to
+    [read_file] / [error::default] with the file cache threaded through, [serve] the same without a
+    file cache; [run_history] (Model/PathSanPipe.v) runs [serve_st] over a history of requests with
+    the response cache and the file cache threaded through — the component that is compared with the
+    real [kvarn::handle_cache] / [kvarn::handle_connection] on a fixture tree on every run, including
+    the list of objects the operating system was asked to open (inotify). *)
+From KV Require Import Bytes PathSan PathSanProofs PathSanServe PathSanServeProofs PathSanPipe PathSanPipeProofs.
 Open Scope N_scope.
 
 (** 1a. Lexical confinement.  An accepted path decodes to "/" ++ t; split t on '/' into
@@ -80,6 +82,49 @@ Theorem unsafe_is_400_and_silent :
     r_status r = 400 /\ r_body r = None /\ r_from_cache r = false /\ silent ev.
 Proof. exact unsafe_is_400_and_silent_lemma. Qed.
 
+(** 2c. The same with the file cache threaded through, in every file-cache state: the only path string
+    that can be handed to the operating system is the operator's error page for status 400
+    ([error_path h 400] — the request does not occur in it), and the file cache is unchanged under
+    every other path: the requested path is neither read nor looked up nor remembered. *)
+Theorem unsafe_reads_only_the_error_page :
+  forall (h : host_cfg) (rd : bytes -> option bytes) (on : bool) (fc : fcache) (m : meth) (ov : option bytes)
+         (cached : option reply) (p : bytes),
+    unsafe (percent_decode p) ->
+    let '(r, ev, fc', os) := serve_st h rd on fc m ov cached p in
+    r_status r = 400 /\ r_body r = None /\ r_from_cache r = false /\ silent ev /\
+    Forall (fun f => f = error_path h 400) os /\
+    (forall k, k <> error_path h 400 -> fc_get k fc' = fc_get k fc).
+Proof. exact unsafe_is_400_and_silent_st_lemma. Qed.
+
+(** 2d. The file cache is transparent: whenever every entry of the file cache is what the operating
+    system returns for that path string (true of the empty cache and preserved by every step — the
+    files do not change while the server runs), the pipeline answers exactly as without a file cache,
+    leaves such a cache, and hands to the operating system only paths that occur in the read events
+    of its trace. *)
+Theorem fcache_transparent :
+  forall (h : host_cfg) (rd : bytes -> option bytes) (on : bool) (fc : fcache) (m : meth) (ov : option bytes)
+         (cached : option reply) (p : bytes),
+    fc_coherent rd fc ->
+    let '(r, ev, fc', os) := serve_st h rd on fc m ov cached p in
+    (r, ev) = serve h rd m ov cached p /\ fc_coherent rd fc' /\ incl os (read_paths ev).
+Proof. exact fcache_transparent_lemma. Qed.
+
+(** 2e. Error pages: every error-page read of the pipeline goes to [error_path h (r_status r)] =
+    [<host.path>/<errors_dir>/<status>.html], a function of the host and of the status code only, and
+    an error-page content in a computed reply is what that path holds. *)
+Theorem error_page_path_is_constant :
+  forall (h : host_cfg) (rd : bytes -> option bytes) (on : bool) (fc : fcache) (m : meth) (ov : option bytes)
+         (cached : option reply) (p : bytes),
+    let '(r, ev, _, _) := serve_st h rd on fc m ov cached p in
+    forall path, In (EErrRead path) ev -> path = error_path h (r_status r).
+Proof. exact error_page_path_lemma. Qed.
+
+Theorem error_page_content :
+  forall (h : host_cfg) (fs : bytes -> option bytes) (m : meth) (ov : option bytes) (p : bytes)
+         (r : reply) (ev : list event) (c : bytes),
+    serve h fs m ov None p = (r, ev) -> r_err r = Some c -> fs (error_path h (r_status r)) = Some c.
+Proof. exact err_content_lemma. Qed.
+
 (** 3a. An accepted path contains no "./", neither raw nor decoded; so it is different from every
     key that contains "./" — in particular from every internal route "/./…". *)
 Theorem internal_routes_unreachable : forall p : bytes,
@@ -111,47 +156,57 @@ Theorem accepted_path_never_panics : forall host public p : bytes,
   sanitize_path p = Ok tt -> request_fs_path host public p <> Panic.
 Proof. exact request_fs_path_no_panic. Qed.
 
-(** 6. All histories.  [run_history c [] ops] is the list of answers of the fixture host [c] (any
-    host path, public directory, default extensions or none, response cache on or off, any table of
-    path-bound handlers, the file system being ANY tree without symbolic links) to ANY sequence of
-    requests (any method, target, Origin kind) and of steps that copy a stored cache entry to an
-    arbitrary other key.  Every body in every answer — whether computed or served from the cache — is
-    the error page, the CORS refusal, empty, the body of one of the operator's handlers, or the content
-    of a file reached from the public directory by descending through child names. *)
+(** 6. All histories.  [run_history c empty_state ops] is the list of answers of the fixture host [c]
+    (any host path, public directory, errors directory, default extensions or none, response cache on
+    or off, file cache on or off, file system enabled or not, any table of path-bound handlers, the
+    file system being ANY tree without symbolic links) to ANY sequence of requests (any method, any
+    request target in any form, Origin kind) and of steps that copy a stored cache entry to an
+    arbitrary other key.  Every body in every answer — whether computed or served from the response
+    cache, read from disk or from the file cache — is the generated error page, the CORS refusal,
+    empty, the body of one of the operator's handlers, the content of a file reached from the public
+    directory by descending through child names, or the content of one of the operator's error pages
+    ([error_path] of the host and a status code). *)
 Theorem history_bodies_confined :
   forall (c : pcfg) (root cwd P : pos) (ops : list op),
     benign_host (pc_host c) -> wf_pos root -> wf_pos cwd -> pc_fs c = read_path root cwd ->
     resolve_path root cwd (h_path (pc_host c) ++ [c_slash] ++ h_public (pc_host c)) = Some P ->
-    Forall (answer_ok c P) (run_history c [] ops).
+    Forall (answer_ok c P) (run_history c empty_state ops).
 Proof. exact history_bodies_confined_lemma. Qed.
 
-(** 7. In every cache state (whatever earlier requests and alias steps put there), a request whose
-    percent-decoded path is unsafe is answered 400 with the error page, no Prepare extension is
-    consulted or run (empty log), and the cache is left as it was. *)
+(** 7. In every state (whatever earlier requests and alias steps put into the response cache, any
+    coherent file cache), a request whose percent-decoded path is unsafe is answered 400 with the
+    generated page or the operator's page for status 400, no Prepare extension is consulted or run
+    (empty log), the only object the operating system may have been asked to open is that page, the
+    response cache is left as it was and the file cache changes at most under that page's path. *)
 Theorem unsafe_request_is_400_in_every_state :
-  forall (c : pcfg) (cache : cache_t) (m t : bytes) (k : N) (p : bytes),
-    starts_with [c_slash] t = true -> uri_path t = Some p -> unsafe (percent_decode p) ->
-    step_request c cache m t k = (XL [XN 400; XB errpage; XL []], cache).
+  forall (c : pcfg) (st : pstate) (m t : bytes) (k : N) (p : bytes) (q : option bytes),
+    target_uri t = Some (p, q) -> unsafe (percent_decode p) -> fc_coherent (pc_fs c) (snd st) ->
+    exists (body : bytes) (opens : list bytes) (fc' : fcache),
+      step_request c st m t k = (XL [XN 400; XB body; XL []; x_list XB opens], (fst st, fc')) /\
+      (body = errpage \/ pc_fs c (error_path (pc_host c) 400) = Some body) /\
+      Forall (fun o => In o (open_name (pc_tree c) (error_path (pc_host c) 400))) opens /\
+      (forall f, f <> error_path (pc_host c) 400 -> fc_get f fc' = fc_get f (snd st)).
 Proof. exact unsafe_step_lemma. Qed.
 
 (** 8. When the CORS Prime extensions produce no override for a request, the host answers it (and
-    updates its cache) exactly as the same host WITHOUT any path-bound Prepare extension whose key
-    contains "./" would: the internal routes do not exist for such a request, in any cache state. *)
+    updates its caches) exactly as the same host WITHOUT any path-bound Prepare extension whose key
+    contains "./" would: the internal routes do not exist for such a request, in any state. *)
 Theorem internal_routes_need_override :
-  forall (c : pcfg) (cache : cache_t) (m t : bytes) (k : N),
+  forall (c : pcfg) (st : pstate) (m t : bytes) (k : N),
     benign_host (pc_host c) -> override_of (pc_default_ext c) m k = None ->
-    step_request (strip_internal c) cache m t k = step_request c cache m t k.
+    step_request (strip_internal c) st m t k = step_request c st m t k.
 Proof. exact no_override_strip_lemma. Qed.
 
 (** Non-vacuity. *)
 Definition ex_tree : node :=
   Dir [(B "host", Dir [(B "public", Dir [(B "index.html", File (B "INDEX")); (B "a", Dir [(B "b.txt", File (B "AB"))])]);
+                       (B "errors", Dir [(B "404.html", File (B "E404"))]);
                        (B "secret.txt", File (B "SECRET"))]);
        (B "outside.txt", File (B "OUTSIDE"))].
 Definition ex_root : pos := (ex_tree, []).
 Definition ex_host : host_cfg :=
-  {| h_path := B "host"; h_public := B "public"; h_redirect := true; h_ext_default := B "html";
-     h_folder_default := B "index.html"; h_prepare_single := [B "/./cors_fail"; B "/./cors_options"] |}.
+  {| h_path := B "host"; h_public := B "public"; h_errors := B "errors"; h_fs := true; h_redirect := true;
+     h_ext_default := B "html"; h_folder_default := B "index.html"; h_prepare_single := [B "/./cors_fail"; B "/./cors_options"] |}.
 
 Example ex_accepted : sanitize_path (B "/a//b.txt") = Ok tt /\ sanitize_path (B "/..") = Ok tt /\
                       sanitize_path (B "/%252e%252e/secret.txt") = Ok tt.
@@ -175,16 +230,34 @@ Proof. repeat split; vm_compute; reflexivity. Qed.
 Example ex_unsafe : unsafe (percent_decode (B "/%2e%2e/%ff")).
 Proof. apply unsafe_b_iff. vm_compute. reflexivity. Qed.
 Example ex_serve_400 :
-  serve ex_host (read_path ex_root ex_root) MGet None (Some {| r_status := 403; r_body := None; r_from_cache := false |})
+  serve ex_host (read_path ex_root ex_root) MGet None (Some {| r_status := 403; r_body := None; r_err := None; r_from_cache := false |})
         (B "/./cors_fail")
-  = ({| r_status := 400; r_body := None; r_from_cache := false |}, [ESanitize; EPrime; EErrorPage 400]).
+  = ({| r_status := 400; r_body := None; r_err := None; r_from_cache := false |},
+     [ESanitize; EPrime; EErrorPage 400; EErrRead (B "host/errors/400.html")]).
 Proof. vm_compute. reflexivity. Qed.
 Example ex_serve_200 :
-  serve ex_host (read_path ex_root ex_root) MGet None None (B "/a/../index.html") =
-    ({| r_status := 400; r_body := None; r_from_cache := false |}, [ESanitize; EPrime; EErrorPage 400]) /\
+  fst (serve ex_host (read_path ex_root ex_root) MGet None None (B "/a/../index.html")) =
+    {| r_status := 400; r_body := None; r_err := None; r_from_cache := false |} /\
   fst (serve ex_host (read_path ex_root ex_root) MGet None None (B "/")) =
-    {| r_status := 200; r_body := Some (B "INDEX"); r_from_cache := false |}.
+    {| r_status := 200; r_body := Some (B "INDEX"); r_err := None; r_from_cache := false |}.
 Proof. split; vm_compute; reflexivity. Qed.
+(** the file cache: the first 404 reads the operator's page from disk and remembers it, the second takes
+    it from the file cache (nothing is handed to the operating system but the missing file itself) *)
+Example ex_error_page_cached :
+  serve_st ex_host (read_path ex_root ex_root) true [] MGet None None (B "/missing") =
+    ({| r_status := 404; r_body := None; r_err := Some (B "E404"); r_from_cache := false |},
+     [ESanitize; EPrime; EPrepareSingle (B "/missing"); EPrepareFn; EFsRead (B "host/public/missing"); EErrorPage 404;
+      EErrRead (B "host/errors/404.html")],
+     [(B "host/errors/404.html", Some (B "E404"))], [B "host/public/missing"; B "host/errors/404.html"]) /\
+  snd (serve_st ex_host (read_path ex_root ex_root) true [(B "host/errors/404.html", Some (B "E404"))] MGet None None (B "/missing")) =
+    [B "host/public/missing"] /\
+  fc_coherent (read_path ex_root ex_root) [(B "host/errors/404.html", Some (B "E404"))] /\
+  error_path ex_host 404 = B "host/errors/404.html".
+Proof.
+  split; [vm_compute; reflexivity|]. split; [vm_compute; reflexivity|]. split; [|vm_compute; reflexivity].
+  intros k e H. cbn [fc_get] in H. destruct (beq (B "host/errors/404.html") k) eqn:E; [|discriminate].
+  apply beq_eq in E. subst k. inversion H. vm_compute. reflexivity.
+Qed.
 Example ex_internal_key : has_dot_slash (B "/./cors_fail") /\ B "/%2e/cors_fail" <> B "/./cors_fail" /\
                           sanitize_path (B "/%2e/cors_fail") = Err E_UNSAFE.
 Proof.
@@ -198,24 +271,46 @@ Example ex_one_decoding : decoded_for_use (B "/%252e%252e/x") = Some (B "/%2e%2e
 Proof. split; vm_compute; reflexivity. Qed.
 Example ex_benign : benign_host ex_host.
 Proof. exact benign_defaults. Qed.
+(** request targets in every form, as kvarn's HTTP/1 reader glues them to the Host header *)
+Example ex_target_forms :
+  target_uri (B "/../secret.txt") = Some (B "/../secret.txt", None) /\
+  target_uri (B "http://localhost/../secret.txt") = Some (B "//localhost/../secret.txt", None) /\
+  target_uri (B "*") = Some (B "/", None) /\ target_uri (B "../secret.txt") = Some (B "/secret.txt", None) /\
+  target_uri (B "@evil/../x?y") = Some (B "/../x", Some (B "y")) /\ target_uri (B "\..\secret.txt") = None /\
+  uri_parse (B "*") = Some (B "*", None) /\ uri_parse (B "example.com") = Some ([], None) /\
+  uri_parse (B "http://h/../x") = Some (B "/../x", None).
+Proof. repeat split; vm_compute; reflexivity. Qed.
 
 (** the fixture host of the examples as a pipeline configuration; a history with a cached file, a
     rejected traversal in two spellings, a double-encoded name that stays inside, and an alias step *)
+Definition ex_files : list (bytes * bytes) :=
+  [(B "host/public/index.html", B "INDEX"); (B "host/public/a/b.txt", B "AB"); (B "host/errors/404.html", B "E404");
+   (B "host/secret.txt", B "SECRET"); (B "outside.txt", B "OUTSIDE")].
 Definition ex_pcfg : pcfg :=
-  {| pc_default_ext := true; pc_cache := true; pc_host := ex_host; pc_fs := read_path ex_root ex_root;
+  {| pc_default_ext := true; pc_cache := true; pc_fcache := true;
+     pc_host := {| h_path := run_dir ++ B "/host"; h_public := B "public"; h_errors := B "errors"; h_fs := true; h_redirect := true;
+                   h_ext_default := B "html"; h_folder_default := B "index.html";
+                   h_prepare_single := [B "/./cors_fail"; B "/./cors_options"] |};
+     pc_fs := read_path (fixture_root ex_files) (fixture_root ex_files); pc_tree := fixture_tree ex_files;
      pc_handlers := [] |}.
 Example ex_history :
-  run_history ex_pcfg []
+  run_history ex_pcfg empty_state
     [OReq (B "GET") (B "/") 0; OReq (B "GET") (B "/index.html") 0; OReq (B "GET") (B "/../secret.txt") 0;
      OAlias (B "/index.html") (B "/%2e%2e/secret.txt"); OReq (B "GET") (B "/%2e%2e/secret.txt") 0;
-     OReq (B "GET") (B "/%252e%252e/") 0; OReq (B "GET") (B "/a/b.txt") 2; OReq (B "GET") (B "/./cors_fail") 0]
-  = [XL [XN 200; XB (B "INDEX"); XL [XB (B "pf")]]; XL [XN 200; XB (B "INDEX"); XL []];
-     XL [XN 400; XB errpage; XL []]; XL [XN 1]; XL [XN 400; XB errpage; XL []];
-     XL [XN 404; XB errpage; XL [XB (B "pf")]]; XL [XN 403; XB cors_denied; XL []]; XL [XN 400; XB errpage; XL []]].
+     OReq (B "GET") (B "/%252e%252e/") 0; OReq (B "GET") (B "/%252e%252e/x") 0; OReq (B "GET") (B "/a/b.txt") 2;
+     OReq (B "GET") (B "/./cors_fail") 0; OReq (B "GET") (B "http://localhost/../secret.txt") 0]
+  = [XL [XN 200; XB (B "INDEX"); XL [XB (B "pf")]; XL [XB (B "host/public/index.html")]];
+     XL [XN 200; XB (B "INDEX"); XL []; XL []];
+     XL [XN 400; XB errpage; XL []; XL []]; XL [XN 1]; XL [XN 400; XB errpage; XL []; XL []];
+     XL [XN 404; XB (B "E404"); XL [XB (B "pf")]; XL [XB (B "host/errors/404.html")]];
+     XL [XN 404; XB (B "E404"); XL [XB (B "pf")]; XL []];
+     XL [XN 403; XB cors_denied; XL []; XL []]; XL [XN 400; XB errpage; XL []; XL []];
+     XL [XN 400; XB errpage; XL []; XL []]].
 Proof. vm_compute. reflexivity. Qed.
 Example ex_history_hyps :
-  benign_host (pc_host ex_pcfg) /\ wf_pos ex_root /\
-  resolve_path ex_root ex_root (h_path (pc_host ex_pcfg) ++ [c_slash] ++ h_public (pc_host ex_pcfg)) <> None.
+  benign_host (pc_host ex_pcfg) /\ wf_pos (fixture_root ex_files) /\
+  resolve_path (fixture_root ex_files) (fixture_root ex_files)
+    (h_path (pc_host ex_pcfg) ++ [c_slash] ++ h_public (pc_host ex_pcfg)) <> None.
 Proof. split; [exact benign_defaults|]. split; [constructor|vm_compute; discriminate]. Qed.
 Example ex_no_override : override_of true (B "GET") 0 = None /\ override_of true (B "GET") 2 = Some cors_fail.
 Proof. split; reflexivity. Qed.
